@@ -164,6 +164,9 @@ fn ser_named_type(ty: &OwnedDataModelType, value: &Value, out: &mut Vec<u8>) -> 
         }
         OwnedDataModelType::String | OwnedDataModelType::Char => {
             let val = value.as_str().right()?;
+            if matches!(ty, OwnedDataModelType::Char) && val.chars().count() != 1 {
+                return Err(Error::SchemaMismatch);
+            }
 
             // First add len
             let len = val.len();
